@@ -6,14 +6,16 @@ from .. import common, refgraph
 
 PROP = 'C13'
 LABELS = [(True, True), (False, True), (True, False), (False, False)]
+# a third component names a TTC distribution carried by the node (labels, not TTCs, decide pruning)
 KINDS12 = [(t, l) for t in ('or', 'and') for l in LABELS] + \
-          [('defense', (True, True)), ('defense', (False, False)), ('exist', (True, True)), ('notExist', (False, True))]
+          [('defense', (True, True)), ('defense', (False, False)), ('exist', (True, True)), ('notExist', (False, True))] + \
+          [('or', (True, False), 'Exponential'), ('and', (False, True), 'Bernoulli')]
 KINDS4 = [('or', (True, True)), ('or', (False, True)), ('and', (True, False)), ('defense', (False, True))]
 KINDS2 = [('or', (True, True)), ('and', (False, False))]
 
 
 def prunable(kind):
-    t, (v, nec) = kind
+    t, (v, nec) = kind[0], kind[1]
     return t in ('or', 'and') and (not v or not nec)
 
 
@@ -21,15 +23,18 @@ def build(kinds, edges, order, attacker_on):
     from maltoolbox.attackgraph import AttackGraph, AttackGraphNode, Attacker
     g = AttackGraph()
     nodes = []
-    for i, (t, (v, nec)) in enumerate(kinds):
-        n = AttackGraphNode(type=t, name=f'n{i}', ttc=None, is_viable=v, is_necessary=nec)
+    for i, kind in enumerate(kinds):
+        t, (v, nec) = kind[0], kind[1]
+        ttc = {'type': 'function', 'name': kind[2], 'arguments': [0.5]} if len(kind) > 2 else None
+        n = AttackGraphNode(type=t, name=f'n{i}', ttc=ttc, is_viable=v, is_necessary=nec)
         if t == 'defense':
             n.defense_status = 1.0
         if t in ('exist', 'notExist'):
             n.existence_status = True
         nodes.append(n)
+    # explicit ids: the storage order of graph.nodes is `order`, independent of the id order
     for i in order:
-        g.add_node(nodes[i])
+        g.add_node(nodes[i], node_id=i)
     for a, b in edges:
         nodes[a].children.append(nodes[b])
         nodes[b].parents.append(nodes[a])
@@ -115,7 +120,7 @@ def _job(job):
 
 def run(tier, seed):
     res = common.Result(PROP, tier, seed, 'model_checking')
-    res.rule = ('synthetic labelled attack graphs: n<=3 over 12 (type, viable, necessary) kinds with every subset of the '
+    res.rule = ('synthetic labelled attack graphs: n<=3 over 14 (type, viable, necessary[, TTC]) kinds with every subset of the '
                 'n^2 edges, n=4 over 4 kinds and n=5 over 2 kinds (n=6 in thorough) with 7 structured edge shapes; every '
                 'storage order of graph.nodes; with and without an attacker sitting on the first / last node; '
                 'non-trivial = at least one node must be pruned')
@@ -151,7 +156,7 @@ def run(tier, seed):
 def replay(path):
     j = json.load(open(path))
     c = j['case']
-    v = check([(k[0], tuple(k[1])) for k in c['kinds']], [tuple(e) for e in c['edges']], c['order'], c['attacker_on'], {})
+    v = check([tuple([k[0], tuple(k[1])] + list(k[2:])) for k in c['kinds']], [tuple(e) for e in c['edges']], c['order'], c['attacker_on'], {})
     if v is not None:
         print('reproduced:', v)
         print(f'VIOLATION property={PROP} replay={path}')
